@@ -42,8 +42,9 @@ def source_table_contract():
         return False
     cl = Clause("media-type-table", post,
                 statement="text/* -> text, application/json and *+json -> json, application/octet-stream -> bytes, anything else "
-                          "(or an unparseable media type) -> None", props=["C04"])
-    return FnContract(f"{R}:_source_by_content_type", [Case("any", make, [cl], raises=(), props=["C04"])])
+                          "(or an unparseable media type) -> None -- decided on what get_content_type returns for the document's "
+                          "string (i.e. after content_type_overrides), never on the raw string", props=["C04", "C16"])
+    return FnContract(f"{R}:_source_by_content_type", [Case("any", make, [cl], raises=(), props=["C04", "C16"])])
 
 
 def add_responses_contract():
